@@ -143,7 +143,63 @@ fn gen(case_seed: u64, _case: u64, tier: Tier, id: &str, focus: Focus) -> Plan {
 		commits = rng.range(3, 9);
 	}
 	let budget = txn_budget(opts.memtable);
-	let mut steps = gen_workload(&mut rng, focus, nkeys, &mut tags, commits, gated, true, budget, big);
+	// a sixth of the cases: the commit pipeline overlaps a rotation. One committer is parked
+	// between its WAL append and its memtable apply while another commits completely; then a
+	// rotation that is NOT caused by a full arena (rotate / flush), then the parked commit is
+	// applied - to the new memtable, although its log record is in the old segment
+	let overlap = !big && !matches!(focus, Focus::C10 | Focus::C11) && rng.chance(1, 6);
+	let mut steps = if overlap {
+		let mut st = Vec::new();
+		let full_commit = |st: &mut Vec<Step>, a: u8, sync: bool| {
+			st.push(Step::Commit { a, sync });
+			for _ in 0..7 {
+				st.push(Step::Poll { a });
+			}
+		};
+		for _ in 0..commits.min(12) {
+			if rng.chance(1, 2) {
+				// parked committer a1
+				st.push(Step::Begin { a: 1, mode: ModeS::ReadWrite });
+				for _ in 0..rng.range(1, 3) {
+					st.push(Step::Set { a: 1, k: rng.below(nkeys as u64) as u16, v: tags.next(rng.range(8, 60) as u32), ts: None });
+				}
+				st.push(Step::Commit { a: 1, sync: rng.chance(1, 3) });
+				st.push(Step::Poll { a: 1 });
+				st.push(Step::Poll { a: 1 }); // now logged, parked before its apply
+				for _ in 0..rng.range(1, 3) {
+					st.push(Step::Begin { a: 0, mode: ModeS::ReadWrite });
+					st.push(Step::Set { a: 0, k: rng.below(nkeys as u64) as u16, v: tags.next(rng.range(8, 60) as u32), ts: None });
+					full_commit(&mut st, 0, rng.chance(1, 3));
+				}
+				st.push(match rng.below(3) {
+					0 => Step::Rotate,
+					1 => Step::FlushAll,
+					_ => Step::Rotate,
+				});
+				if rng.chance(1, 2) {
+					st.push(Step::FlushOne);
+				}
+				for _ in 0..6 {
+					st.push(Step::Poll { a: 1 });
+				}
+				if rng.chance(1, 2) {
+					st.push(Step::FlushOne);
+				}
+			} else {
+				st.push(Step::Begin { a: 0, mode: ModeS::ReadWrite });
+				for _ in 0..rng.range(1, 3) {
+					st.push(Step::Set { a: 0, k: rng.below(nkeys as u64) as u16, v: tags.next(rng.range(8, 60) as u32), ts: None });
+				}
+				full_commit(&mut st, 0, rng.chance(1, 3));
+				if rng.chance(1, 5) {
+					st.push(physical_step(&mut rng, false));
+				}
+			}
+		}
+		st
+	} else {
+		gen_workload(&mut rng, focus, nkeys, &mut tags, commits, gated, true, budget, big)
+	};
 	if focus == Focus::C10 {
 		one_write_per_key(&mut steps);
 	}
@@ -200,7 +256,7 @@ fn gen(case_seed: u64, _case: u64, tier: Tier, id: &str, focus: Focus) -> Plan {
 		keys,
 		steps,
 		windows,
-		async_yields: false,
+		async_yields: overlap,
 		gate_tasks: gated,
 		faults: vec![],
 		crash: Some(CrashPlan { model: CrashModel::Process, points: vec![], tear }),
